@@ -2,7 +2,8 @@
    Third-party code appears as universally quantified functions (the Section variables of
    Misc/Prov.v): clearsign_decode, check_sig, sha256, yaml_meta_ok, yaml_sums. *)
 From Coq Require Import List String Ascii Bool.
-From Helm Require Import Common.Assoc Misc.Prov Misc.ProvProofs Misc.ProvTrust Misc.ProvTrustProofs Gen.C17Strategy Misc.ProvSource.
+From Helm Require Import Common.Assoc Misc.Prov Misc.ProvProofs Misc.ProvTrust Misc.ProvTrustProofs Gen.C17Strategy Misc.ProvSource
+                        Misc.ProvFiles Misc.ProvFilesProofs.
 Import ListNotations.
 Local Open Scope string_scope.
 
@@ -375,3 +376,59 @@ Theorem C17_source_tables :
   verify_signature_keys_src = "s.KeyRing".
 Proof. exact (conj strategy_consts_source signature_keys_source). Qed.
 Print Assumptions C17_source_tables.
+
+(* ------------------------------------------------------------------ the file layer *)
+(* Signatory.Verify is handed two paths, each a regular file, missing, a directory, or a file
+   that opens but cannot be read.  It accepts only two readable regular files, and then exactly
+   when the verification proper (C17_verify_iff) accepts their contents under the archive's base
+   name.  In particular an archive that cannot be read is never accepted. *)
+Theorem C17_files_verify_iff :
+  forall (keyring sigbody signer : Type)
+         (clearsign_decode : string -> option (string * sigbody))
+         (check_sig : keyring -> string -> sigbody -> option signer)
+         (sha256 : string -> string) (yaml_meta_ok : string -> bool)
+         (yaml_sums : string -> option (list (string * string)))
+         (kr : keyring) (chart prov : fstate) (name : string) (by_ : signer) (h : string),
+    verify_files keyring sigbody signer clearsign_decode check_sig sha256 yaml_meta_ok yaml_sums kr chart prov name = FOk by_ h <->
+    exists a pv, chart = FFile a /\ prov = FFile pv /\
+      verify keyring sigbody signer clearsign_decode check_sig sha256 yaml_meta_ok yaml_sums kr pv name a = VOk by_ h.
+Proof. exact files_verify_iff. Qed.
+Print Assumptions C17_files_verify_iff.
+
+(* downloader.VerifyChart(path, keyring): readable archive whose name ends in .tgz, readable
+   <path>.prov, keyring loads, Verify accepts *)
+Theorem C17_verify_chart_files_iff :
+  forall (keyring sigbody signer : Type)
+         (clearsign_decode : string -> option (string * sigbody))
+         (check_sig : keyring -> string -> sigbody -> option signer)
+         (sha256 : string -> string) (yaml_meta_ok : string -> bool)
+         (yaml_sums : string -> option (list (string * string)))
+         (kr : option keyring) (chart prov : fstate) (name : string) (by_ : signer) (h : string),
+    verify_chart_files keyring sigbody signer clearsign_decode check_sig sha256 yaml_meta_ok yaml_sums kr chart prov name = FOk by_ h <->
+    exists a pv k, chart = FFile a /\ prov = FFile pv /\ kr = Some k /\ is_tgz name = true /\
+      verify keyring sigbody signer clearsign_decode check_sig sha256 yaml_meta_ok yaml_sums k pv name a = VOk by_ h.
+Proof. exact verify_chart_files_iff. Qed.
+Print Assumptions C17_verify_chart_files_iff.
+
+(* witness on the unrepaired Digest (a read error answered with "" and no error): an archive
+   that cannot be read verified against signed sums listing "sha256:" for its name, FileHash
+   "sha256:"; the code as repaired (fda75d8) answers with an error *)
+Theorem C17_digest_unrepaired_refuted :
+  verify_files_unrepaired (list nat) nat nat ex_decode ex_check (fun a => a) (fun _ => true) tf_sums
+                          [7] FUnreadable (FFile "PROV") "a-1.tgz" = FOk 7 "sha256:" /\
+  verify_files (list nat) nat nat ex_decode ex_check (fun a => a) (fun _ => true) tf_sums
+               [7] FUnreadable (FFile "PROV") "a-1.tgz" = FErr FEDigest.
+Proof. exact digest_unrepaired_refuted. Qed.
+Print Assumptions C17_digest_unrepaired_refuted.
+
+Example C17_files_example :
+  verify_files (list nat) nat nat ex_decode ex_check (fun a => a) (fun _ => true) ex_sums
+               [7] (FFile "d1") (FFile "PROV") "a-1.tgz" = FOk 7 "sha256:d1" /\
+  verify_chart_files (list nat) nat nat ex_decode ex_check (fun a => a) (fun _ => true) ex_sums
+               (Some [7]) (FFile "d1") (FFile "PROV") "a-1.tgz" = FOk 7 "sha256:d1" /\
+  verify_chart_files (list nat) nat nat ex_decode ex_check (fun a => a) (fun _ => true) ex_sums
+               (Some [7]) (FFile "d1") FDir "a-1.tgz" = FErr FEIsDirectory /\
+  verify_chart_files (list nat) nat nat ex_decode ex_check (fun a => a) (fun _ => true) ex_sums
+               (Some [7]) (FFile "d1") FMissing "a-1.tgz" = FErr (FECore ENoProv).
+Proof. exact files_example. Qed.
+Print Assumptions C17_files_example.
